@@ -27,7 +27,7 @@ EXPLANATION = (
     "trailer-less format needs (EOF while reading the generation number, EOF exactly where the next record would start); valid=true is written only after the loop ran to end-of-file; Generation::sync/wasUpdated treat a failed read as 'changed'/'failure'. "
     "R3 (write order inventory): every destructive operation on a live store file — File::truncate, an O_TRUNC open (File constructed with read+write+create+truncate) — is reported unless its target is a temporary that is renamed afterwards. "
     "The in-place rewrite in ObjectFile::writeAttributes violates this on the pinned tree; it was replayed (process killed after File::truncate: the key file is left empty and the key is lost) and is listed as known finding F10, a design property of the store "
-    "that a small patch cannot change (the fcntl locking protocol is tied to the object file's inode). R4 (creation order): OSToken::createObject registers the new object only after ObjectFile construction reported valid (shared with C09.R4).")
+    "that a small patch cannot change (the fcntl locking protocol is tied to the object file's inode). R5: the rewrite has a single durability point (no flush followed by further writes). R6: the token-opening path of C_Initialize has no unguarded unsigned subtraction (shared with C17.R3). R4 (creation order): OSToken::createObject registers the new object only after ObjectFile construction reported valid (shared with C09.R4).")
 ASSUMPTIONS = ['a crashed process leaves a prefix of the bytes written since the last truncate (stdio buffering, no reordering within one file)', 'fread/fwrite/ftruncate behave as documented',
                'abstract paths: loops unrolled twice, then summarised']
 TECHNIQUE = 'custom static analysis over the clang AST: path enumeration of the file readers and the object loader (failed-read -> invalid typestate), inventory of destructive file operations'
@@ -284,15 +284,56 @@ def r4_creation_order(ctx, prog):
         r.ok(f['qname'], 'registration', '%d registering paths, all after isValid()' % n, file=f['file'], line=f['line'])
 
 
+def r5_single_durability_point(ctx, prog):
+    r = ctx.rule('C16.R5', 'a rewrite has one durability point: no flush of the object file is followed by a further write of the same rewrite', floor=1, engine='E3')
+    f = prog.fn('ObjectFile::writeAttributes')
+    ctx.analysed(f)
+    W = {'writeULong', 'writeByteString', 'writeBool', 'writeMechanismTypeSet', 'writeAttributeMap', 'writeString'}
+    o = outcomes(f, prog, {}, record=W | {'flush', 'truncate', 'unlock'}, rounds=2, cap=512)
+    r.paths += len(o.outcomes)
+    bad = None
+    n = 0
+    for oc in o.outcomes:
+        evs = [e for e in oc['events'] if e[0] == 'call']
+        tr = [i for i, e in enumerate(evs) if e[1] == 'truncate']
+        if not tr:
+            continue
+        n += 1
+        fl = [i for i, e in enumerate(evs) if e[1] in ('flush', 'unlock') and i > tr[0]]
+        wr = [i for i, e in enumerate(evs) if e[1] in W and i > tr[0]]
+        if fl and wr and min(fl) < max(wr):
+            bad = (oc, evs[min(fl)])
+    if bad:
+        r.violation(f['qname'], 'flush placement', '%s at line %s is followed by further writes of the same rewrite: the file on disk grows record by record, and the loader takes every such prefix (it ends at a record boundary) for a complete object — '
+                    'a crash hands out the key with attributes missing or stale' % (bad[1][1], bad[1][3]), file=f['file'], line=bad[1][3], path=bad[0]['path'])
+    elif n == 0:
+        r.undecided(f['qname'], 'flush placement', 'no rewriting path found', file=f['file'], line=f['line'])
+    else:
+        r.ok(f['qname'], 'flush placement', '%d rewriting paths, flush/unlock only after the last write' % n, file=f['file'], line=f['line'])
+
+
+def r6_loader_no_throw(ctx, prog):
+    """The functions C_Initialize runs to open a token directory contain no unguarded unsigned subtraction feeding substr/resize/index (the exception barrier turns a throw into exit())."""
+    from rules import c17
+    from engine import callgraph
+    reach = callgraph.reach(prog, 'SoftHSM::C_Initialize') | {'SoftHSM::C_Initialize'}
+    keep = {q for q in reach if q.split('::')[0] in ('SlotManager', 'Slot', 'Token', 'ObjectStore', 'OSToken', 'ObjectFile', 'File', 'Directory', 'Generation', 'ObjectStoreToken', 'SecureDataManager')}
+    c17.r3_underflow(ctx, prog, rule_id='C16.R6', text='opening a token directory cannot throw on an unsigned wrap: sizes read from token files are guarded before they are subtracted from', floor=1, only=keep)
+
+
 def run(ctx):
     prog = ctx.prog('ossl-file')
     r1_exact_reads(ctx, prog)
     r2_loader(ctx, prog)
     r3_write_order(ctx, prog)
     r4_creation_order(ctx, prog)
+    r5_single_durability_point(ctx, prog)
+    r6_loader_no_throw(ctx, prog)
 
 
 MUTANTS = [
+    dict(name='flush-after-every-attribute', rule='C16.R5', file='src/lib/object_store/ObjectFile.cpp', after='bool ObjectFile::writeAttributes(File &objectFile)',
+         old='\t\tunsigned long p11AttrType = i->first;\n', new='\t\tunsigned long p11AttrType = i->first;\n\t\tif (!objectFile.flush()) { objectFile.unlock(); return false; }\n'),
     dict(name='readulong-short-read-accepted', rule='C16.R1', file='src/lib/object_store/File.cpp', after='bool File::readULong(',
          old='\tif (fread(&ulongVal[0], 1, 8, stream) != 8)\n', new='\tif (fread(&ulongVal[0], 1, 8, stream) == 0)\n'),
     dict(name='readbytestring-unbounded-and-short', rule='C16.R1', file='src/lib/object_store/File.cpp', after='bool File::readByteString(',
